@@ -83,6 +83,7 @@ struct simk_obs {
 	void (*lock_event)(int tid, void *addr, int acquired, int spin);
 	void (*would_block)(int tid, int fd);
 	void (*child_event)(pid_t pid, int serial, int state, int status);
+	void (*read_data)(int tid, int fd, const void *buf, long n);	/* bytes a library read() returned */
 };
 extern struct simk_obs simk_obs;
 
